@@ -150,7 +150,7 @@ def obligations(tier: str):
     # generated hierarchies
     from vf.fixtures import family
 
-    for k in family.interesting(3, 300, every=16 if T else 90):
+    for k in family.interesting(3, 300, every=30 if T else 90):
         for d in (0, 1):
             add("feasible", f"tree_grow_family{k}_m+{d}", fixture="family", index=k, rep="tree", decider="grow", delta=d)
     for rep in ("ge", "sge", "dsge"):
